@@ -18,7 +18,8 @@ RULE = (
     "decimal read precision 3 / precision 12, fixed-decimal write, JSON read with absent defaulted keys, JSON write, "
     "parse_schema of a shared raw dict, parse_schema of a parsed dict into a local table, validate, schemaless write with "
     "multi-byte varints, container write, container read, schemaless read with a reader schema (nested records), "
-    "schemaless read; all unordered pairs incl. self-pairs. Oracle: each thread's bytes/value/exception equal its solo "
+    "schemaless read, container/schemaless reads of two files whose schemas define the same type names differently; all unordered "
+    "pairs incl. self-pairs (quick: the twin-file reads only as the three a-versus-b pairs). Oracle: each thread's bytes/value/exception equal its solo "
     "result. states = distinct (pair, schedule) executions; transitions = scheduling points executed."
 )
 ASSUMPTIONS = [
@@ -32,7 +33,7 @@ DEC3 = {"type": "bytes", "logicalType": "decimal", "precision": 3, "scale": 1}
 DEC12 = {"type": "bytes", "logicalType": "decimal", "precision": 12, "scale": 0}
 FIXDEC = {"type": "fixed", "name": "FD", "size": 8, "logicalType": "decimal", "precision": 12, "scale": 2}
 REC = {"type": "record", "name": "Rec", "namespace": "c18", "fields": [
-    {"name": "id", "type": "long"}, {"name": "s", "type": "string"},
+    {"name": "id", "type": "long"}, {"name": "s", "type": "string"}, {"name": "d", "type": "double", "default": 0.5}, {"name": "f", "type": "float", "default": 1.5},
     {"name": "tags", "type": {"type": "array", "items": "string"}, "default": ["x", "y"]},
     {"name": "m", "type": {"type": "map", "values": "int"}, "default": {"k": 1}},
     {"name": "inner", "type": {"type": "record", "name": "Inner", "fields": [{"name": "v", "type": "int", "default": 7}]}, "default": {"v": 9}},
@@ -45,8 +46,17 @@ SMALL = {"type": "record", "name": "Small", "namespace": "c18", "fields": [
     {"name": "id", "type": "long"}, {"name": "tags", "type": {"type": "array", "items": "string"}, "default": ["x", "y"]},
     {"name": "u", "type": ["null", {"type": "map", "values": "int"}], "default": None}]}
 SDATUM = {"id": 8192, "tags": ["t" * 70], "u": {"k": 64}}
-DATUM = {"id": 123456, "s": "hello" * 20, "tags": ["a" * 70], "m": {"k" * 70: 300}, "inner": {"v": 8192}, "u": {"v": -70}}
-DATUM2 = {"id": -99, "s": "z", "tags": [], "m": {}, "inner": {"v": 1}, "u": "str"}
+DATUM = {"id": 123456, "d": 3e100, "f": -2.25, "s": "hello" * 20, "tags": ["a" * 70], "m": {"k" * 70: 300}, "inner": {"v": 8192}, "u": {"v": -70}}
+DATUM2 = {"id": -99, "d": 123456.789, "f": 7.0, "s": "z", "tags": [], "m": {}, "inner": {"v": 1}, "u": "str"}
+
+
+TWIN_A = {"type": "record", "name": "Order", "namespace": "tw", "fields": [
+    {"name": "item", "type": {"type": "record", "name": "Item", "fields": [{"name": "qty", "type": "int"}, {"name": "code", "type": "string"}]}},
+    {"name": "more", "type": {"type": "array", "items": "Item"}}]}
+TWIN_B = {"type": "record", "name": "Order", "namespace": "tw", "fields": [
+    {"name": "item", "type": {"type": "record", "name": "Item", "fields": [{"name": "code", "type": "string"}, {"name": "qty", "type": "int"}]}},
+    {"name": "more", "type": {"type": "array", "items": "Item"}}]}
+TW_DATUM = {"item": {"qty": 3, "code": "abc"}, "more": [{"qty": 70, "code": "x" * 5}, {"qty": -1, "code": ""}]}
 
 
 def make_ctx(fa):
@@ -80,6 +90,11 @@ def const(fa):
         fo = io.BytesIO()
         fa.writer(fo, SMALL, [SDATUM], sync_marker=b"S" * 16)
         _CONST["file"] = fo.getvalue()
+        for nm, sch in (("twin_a", TWIN_A), ("twin_b", TWIN_B)):
+            fo = io.BytesIO()
+            fa.writer(fo, sch, [TW_DATUM], sync_marker=b"T" * 16)
+            _CONST[nm] = fo.getvalue()
+            _CONST[nm + "_sl"] = _sl_bytes(fa, sch, TW_DATUM)
     return _CONST
 
 
@@ -144,6 +159,22 @@ def op_cont_read(fa, c, k):
     return list(fa.reader(io.BytesIO(k["file"])))
 
 
+def op_twin_a_read(fa, c, k):
+    return list(fa.reader(io.BytesIO(k["twin_a"])))
+
+
+def op_twin_b_read(fa, c, k):
+    return list(fa.reader(io.BytesIO(k["twin_b"])))
+
+
+def op_twin_a_sl_read(fa, c, k):
+    return fa.schemaless_reader(io.BytesIO(k["twin_a_sl"]), copy.deepcopy(TWIN_A))
+
+
+def op_twin_b_sl_read(fa, c, k):
+    return fa.schemaless_reader(io.BytesIO(k["twin_b_sl"]), copy.deepcopy(TWIN_B))
+
+
 def op_sl_read_resolve(fa, c, k):
     return fa.schemaless_reader(io.BytesIO(k["rec"]), c["rec"], c["rec_reader"])
 
@@ -157,14 +188,17 @@ OPS = [
     ("json_read_defaults", op_json_read_defaults), ("json_write", op_json_write), ("parse_raw", op_parse_raw),
     ("parse_parsed", op_parse_parsed), ("validate", op_validate), ("sl_write", op_sl_write), ("sl_write2", op_sl_write2),
     ("cont_write", op_cont_write), ("cont_read", op_cont_read), ("sl_read_resolve", op_sl_read_resolve), ("sl_read", op_sl_read),
+    ("twin_a_read", op_twin_a_read), ("twin_b_read", op_twin_b_read), ("twin_a_sl_read", op_twin_a_sl_read), ("twin_b_sl_read", op_twin_b_sl_read),
 ]
-CHUNKS = 6
+CHUNKS = 16
 OPCODE_FILES = ("_logical_readers_py.py", "_logical_writers_py.py", "json_decoder.py", "parser.py", "binary_encoder.py")
 
 
 def units(tier):
     idx = range(len(OPS))
-    us = [("pair", a, b) for a, b in itertools.combinations_with_replacement(idx, 2)]
+    twins = set(range(14, 18))
+    us = [("pair", a, b) for a, b in itertools.combinations_with_replacement(idx, 2)
+          if tier == "thorough" or not ({a, b} & twins) or (a, b) in ((14, 15), (16, 17), (14, 17))]
     us = [(u, c) for u in us for c in range(CHUNKS)]
     if tier == "thorough":
         us += [(u, 0) for u in [("triple", 0, 1, 2), ("triple", 0, 1, 1), ("triple", 8, 9, 10), ("triple", 3, 3, 4), ("triple", 5, 6, 7), ("triple", 12, 12, 13)]]
